@@ -187,14 +187,41 @@ def run_frame(case, ctx):
     spec = registry.get(case["cls"])
     K = "C02/%s/" % spec.name
     for vi in range(len(spec.variants)):
-        for weighted in (False, True):
+        for weighted in (False, True, "some-zero", "mostly-zero", "zero-on-one-side", "zero-weight-blob"):
             cfg = {"class": spec.name, "variant": vi, "weighted": weighted}
             est = spec.make(vi)
             D = spec.data(numpy.random.RandomState(3))
             if weighted:
-                if spec.kind != "xy" or spec.no_weights or "y" not in D:
+                nrow_ = len(D["y"]) if "y" in D else len(D["X"])
+                if spec.no_weights or not isinstance(D["X"], numpy.ndarray):
                     continue
-                D["w"] = numpy.random.RandomState(4).rand(len(D["y"])) + 0.5
+                if "y" not in D and spec.name not in ("ConstraintKMeans", "KMeansL1L2"):
+                    continue
+                D["w"] = numpy.random.RandomState(4).rand(nrow_) + 0.5
+                if weighted == "zero-weight-blob":
+                    # three well separated groups of equal size, one of which weighs nothing
+                    if "y" in D:
+                        continue
+                    r_ = numpy.random.RandomState(8)
+                    d_ = D["X"].shape[1]
+                    cen_ = numpy.zeros((3, d_))
+                    cen_[1, :] = 5.0
+                    cen_[2, 0] = 10.0
+                    D["X"] = numpy.vstack([r_.randn(10, d_) * 0.3 + c_ for c_ in cen_])
+                    D["w"] = numpy.full(30, 2.0)
+                    D["w"][10:20] = 0.0
+                elif weighted == "some-zero":
+                    D["w"][numpy.random.RandomState(5).rand(nrow_) < 0.3] = 0.0
+                elif weighted == "mostly-zero":
+                    # only a few rows carry weight: whole clusters / buckets / resamples weigh nothing
+                    keep_ = numpy.random.RandomState(6).choice(nrow_, max(3, nrow_ // 8), replace=False)
+                    z_ = numpy.zeros(nrow_)
+                    z_[keep_] = D["w"][keep_]
+                    D["w"] = z_
+                elif weighted == "zero-on-one-side":
+                    # a spatially coherent part of the table weighs nothing (all the points of a cluster / a bucket)
+                    x0_ = numpy.asarray(D["X"], dtype=float)[:, 0]
+                    D["w"][x0_ > numpy.quantile(x0_, 0.6)] = 0.0
             p0, d0 = params_fp(est), data_fp(D)
             numpy.random.seed(5)
             try:
@@ -293,6 +320,29 @@ def run_frame(case, ctx):
                     ctx.violation(K + "%s/raised-after-refused-calls/%s" % (m, type(e).__name__), str(e)[:120], cfg=cfg)
             ctx.nontriv("frame", spec.name, vi, weighted)
     ctx.cls("class=" + spec.name)
+    # a documented option that needs an optional dependency (verbose='tqdm'): whether the fit runs or is refused because
+    # the package is missing, the option is reported unchanged afterwards
+    for vi in range(len(spec.variants)):
+        est = spec.make(vi)
+        if "verbose" not in est.get_params(deep=False) or not hasattr(type(est), "fit"):
+            continue
+        if not type(est).__module__.startswith("mlinsights.mlmodel.piecewise_estimator") and \
+                not type(est).__module__.startswith("mlinsights.mlmodel.interval_regressor"):
+            continue
+        D = spec.data(numpy.random.RandomState(3))
+        est.set_params(verbose="tqdm")
+        p1 = params_fp(est)
+        try:
+            spec.fit(est, D)
+            outcome = "fit ran"
+        except Exception as e:
+            outcome = "fit raised %s" % type(e).__name__
+        ctx.hit("frame.optional_dependency_option")
+        d = diff_fp(p1, params_fp(est))
+        if d:
+            ctx.violation(K + "fit/params-changed/verbose-tqdm", "verbose='tqdm' (%s): get_params differs afterwards in "
+                          "%r (now %r)" % (outcome, d[:3], est.get_params(deep=False).get("verbose")),
+                          cfg={"class": spec.name, "variant": vi, "verbose": "tqdm"})
     # configurations whose methods are documented to refuse: the refusal changes no parameter, however often it is asked
     if spec.name == "ConstraintKMeans":
         import mlinsights.mlmodel as mm
